@@ -302,19 +302,6 @@ STRUCTURAL = {
     ('get_indexes_for_target', 'get_indexes_for_target'): 'strictly smaller ast subtree',
     ('dumptree', 'dumptree'): 'strictly smaller ast subtree',
     ('_deep_list_to_tuple', '_deep_list_to_tuple'): 'strictly smaller list',
-    ('InstanceValue._attrs', 'InstanceValue._attrs'): 'recursion over base classes: a base is a single-definition name visible '
-        'before the class statement (multiply-bound names evaluate to CompositeValue, which ClassObject.bases drops), so the '
-        'base relation follows textual order',
-    ('InstanceValue._assigned_attrs', 'InstanceValue._assigned_attrs'): 'same (base instances)',
-    ('ClassObject._attrs', 'ClassObject._attrs'): 'same (base classes)',
-    ('CompositeValue.attr_list', 'CompositeValue.attr_list'): 'values are results of completed evaluations (strictly older objects)',
-    ('CompositeValue.attr_list', 'MultiValue.attr_list'): 'same',
-    ('MultiValue.attr_list', 'CompositeValue.attr_list'): 'same',
-    ('MultiValue.attr_list', 'MultiValue.attr_list'): 'same',
-    ('CompositeValue.get_attr', 'CompositeValue.get_attr'): 'same',
-    ('CompositeValue.get_attr', 'MultiValue.get_attr'): 'same',
-    ('MultiValue.get_attr', 'CompositeValue.get_attr'): 'same',
-    ('MultiValue.get_attr', 'MultiValue.get_attr'): 'same',
 }
 
 # self-recursions that carry their own visited-set guard: (function, text that must appear in the guard)
